@@ -135,6 +135,11 @@ fn run_key(k: Key, w: &mut Worker, ctx: &Ctx, tool: Option<&RefTool>) {
     // baseline without aux
     let kp = match libcall::keygen(k.alg, &k.levels, &k.seed, None) {
         Out::Ok(kp) => kp,
+        Out::Err if std::env::var("VERIF_BUILD_CONFIG").is_ok() => {
+            // a build with reduced limits refuses the keys beyond them (that is C14's business)
+            w.report.count("keys_outside_build_limits", 1);
+            return;
+        }
         other => {
             w.report.violation(&format!("C10:baseline_keygen:{}:{}", k.alg.name(), lvs), &format!("keygen without aux failed: {}", other.describe()), J::Null);
             return;
